@@ -47,7 +47,10 @@ def _wrap(draw, s, depth=0, pos="root"):
     if pos == "any-alternative" and _resolves_to_any(s):
         return s
     if draw(st.integers(0, 2)) == 0:
-        return {"t": "custom", "spec": s, "pos": pos, "depth": depth}
+        out = {"t": "custom", "spec": s, "pos": pos, "depth": depth}
+        if draw(st.integers(0, 2)) == 0:
+            out["sub"] = True       # a custom type that subclasses another (already used) custom type
+        return out
     return s
 
 
@@ -110,9 +113,13 @@ def check(case, ctx):
         T = specs.build(spec, wrap_custom=False)
         T2 = specs.build(spec, wrap_custom=True)
     except DeclarationError as e:
-        raise HarnessError(f"undeclarable spec {spec!r}: {e}")
+        ctx.skip_undeclarable(None, e)
+        return
     wrapped = [(s.get("pos"), s.get("depth", 0)) for s, _ in specs.walk(spec) if s["t"] == "custom"]
     if "done" not in _REGISTERED:
+        # the base custom type is in use before any type derived from it (the realistic order)
+        warm = Fwd()(d42.schema.int)
+        repr(warm), validate(warm, 1), fake(warm), substitute(warm, 1)
         got = register_type("pbt_forwarding", Fwd)
         if not isinstance(got, Fwd) or not isinstance(d42.schema.pbt_forwarding, Fwd):
             raise Violation("register-type", f"register_type returned {got!r}")
@@ -201,6 +208,8 @@ def check(case, ctx):
             raise Violation("generated-invalid", f"fake(wrapped) = {g2!r} does not validate like fake(built-in)")
     for pos, d in wrapped:
         ctx.label("wrapped@" + str(pos))
+    if any(s_.get("sub") for s_, _ in specs.walk(spec) if s_["t"] == "custom"):
+        ctx.label("subclassed-custom-type")
     ctx.label("verdicts:%d" % len(verdicts))
     if any(d >= 1 for _, d in wrapped):
         ctx.mark_nontrivial(case, sample_class=tuple(sorted({p for p, _ in wrapped}))[:2])
